@@ -160,6 +160,9 @@ func body(c *hk.Ctx) {
 	case "C03", "C04", "C06", "C18":
 		bodyMulti(c, prop)
 		return
+	case "C05", "C13":
+		bodyPlace(c, prop)
+		return
 	}
 	s := newSys(c)
 	sc := &scenario{}
